@@ -15,10 +15,10 @@ var c18Alpha = []byte{'a', ' ', '\t', '\n', '\r', 0xe3, 0x81, '[', ']', '`', '\\
 func segStr(s text.Segment) string { return fmt.Sprintf("%d,%d,%d", s.Start, s.Stop, s.Padding) }
 
 type rdState struct {
-	src   []byte
-	lines []text.Segment // nil for the plain reader
-	r     text.Reader
-	saved [][2]interface{} // (line, Segment)
+	src       []byte
+	lines     []text.Segment // nil for the plain reader
+	r         text.Reader
+	saved     [][2]interface{} // (line, Segment)
 	savedView [][]byte
 }
 
